@@ -64,7 +64,7 @@ impl Property for C02 {
     fn assumptions(&self) -> Vec<String> {
         vec![
             "'eventually' is replaced by a bound derived from the code's constants (slot 400 ms, crashed-leader timeout 760 ms, hop <= 200 ms)".into(),
-            "no message loss (the statement quantifies over finite delays); standstill recovery uses std::time and never fires under the paused clock".into(),
+            "no message loss (the statement quantifies over finite delays); all node timers (votor, repair expiry, standstill detection) run on the paused clock".into(),
             "hops are kept at <= 0.8 * delta so that a first slice never ties with the crashed-leader timeout".into(),
         ]
     }
